@@ -229,6 +229,14 @@ func configs(quick bool) []cfg {
 		add(cfg{Kind: "tee-verb-writer", Name: fmt.Sprintf("tee-verb-writer:tee-then-put-q:p=%d", p), Argv: []string{"--ocsv", "tee", "@T", "then", "put", "-q", "true", "/vfs/in.dkvp"}, Files: f, Must: true})
 		add(cfg{Kind: "split-writer", Name: fmt.Sprintf("split-writer:split-n-then-nothing:p=%d", p), Argv: []string{"--ocsv", "split", "-n", "10", "--prefix", "@D/sp", "/vfs/in.dkvp"}, Files: f, Must: true})
 	}
+	// several redirected statements in one put: the error of ANY of them must surface, in particular one that only
+	// shows when its target is closed at end of stream (writer error on the LAST record; failing statement first/last)
+	for _, p := range []int{2, N} {
+		f := vf.VFS{"/vfs/in.dkvp": dkvpRecs(p)}
+		add(cfg{Kind: "two-redirects", Name: fmt.Sprintf("two-redirects:failing-first:p=%d", p), Argv: []string{"--ocsv", "put", "-q", `tee > "@T", $*; print > "@D/sp.txt", "x"`, "/vfs/in.dkvp"}, Files: f, Must: true})
+		add(cfg{Kind: "two-redirects", Name: fmt.Sprintf("two-redirects:failing-last:p=%d", p), Argv: []string{"--ocsv", "put", "-q", `print > "@D/sp.txt", "x"; tee > "@T", $*`, "/vfs/in.dkvp"}, Files: f, Must: true})
+		add(cfg{Kind: "two-redirects", Name: fmt.Sprintf("two-redirects:failing-middle-of-3:p=%d", p), Argv: []string{"--ocsv", "put", "-q", `print > "@D/sp1.txt", "x"; emit > "@T", $*; dump > "@D/sp2.txt"`, "/vfs/in.dkvp"}, Files: f, Must: true})
+	}
 	for _, tgt := range []string{"tee", "print", "emit", "dump"} {
 		st := map[string]string{"tee": `tee > "/nonexistent-dir/x", $*`, "print": `print > "/nonexistent-dir/x", "a"`, "emit": `emit > "/nonexistent-dir/x", $*`, "dump": `dump > "/nonexistent-dir/x"`}[tgt]
 		add(cfg{Kind: "redirect-unwritable", Name: "redirect-unwritable:" + tgt, Argv: []string{"put", "-q", st, "/vfs/in.dkvp"}, Files: vf.VFS{"/vfs/in.dkvp": dkvpRecs(0)}, Must: true})
@@ -556,6 +564,12 @@ func binCases() []binCase {
 		{"print-redirect-dev-full", `$MLR put -q 'print > "/dev/full", $i' $D/big.dkvp`, "fail"},
 		{"emit-redirect-dev-full", `$MLR put -q 'emit > "/dev/full", $*' $D/big.dkvp`, "fail"},
 		{"dump-redirect-dev-full", `$MLR put -q '@x[NR]=$i; end{dump > "/dev/full"}' $D/big.dkvp`, "fail"},
+		{"two-redirects-first-dev-full", `$MLR put -q 'print > "/dev/full", $i; print > "'$D'/ok.txt", $i' $D/ok.dkvp`, "fail"},
+		{"two-redirects-last-dev-full", `$MLR put -q 'print > "'$D'/ok.txt", $i; print > "/dev/full", $i' $D/ok.dkvp`, "fail"},
+		{"three-redirects-middle-dev-full", `$MLR put -q 'tee > "'$D'/a.txt", $*; emit > "/dev/full", $*; dump > "'$D'/b.txt"' $D/ok.dkvp`, "fail"},
+		{"two-puts-first-dev-full", `$MLR put -q 'print > "/dev/full", $i' then put -q 'print > "'$D'/ok.txt", $i' $D/ok.dkvp`, "fail"},
+		{"tee-small-dev-full", `$MLR tee /dev/full $D/ok.dkvp`, "fail"},
+		{"split-small-dev-full-like", `$MLR tee /dev/full then put '$z=1' $D/ok.dkvp`, "fail"},
 		{"split-unwritable-dir", `$MLR split -n 2 --prefix /nonexistent-dir/x $D/ok.dkvp`, "fail"},
 		{"tee-unwritable", `$MLR tee /nonexistent-dir/x $D/ok.dkvp`, "fail"},
 		{"pipe-redirect-failing-cmd", `$MLR put -q 'print | "exit 3", $i' $D/ok.dkvp`, "any"},
